@@ -6,7 +6,7 @@ it reads comes from the screen's replies (cursor position reports) preceded / fo
 """
 from . import termmodel
 from .absint import FoldedRaise
-from .consteval import Record, Unknown
+from .consteval import ExcName, Record, Unknown
 from .objinterp import NativeCM, NativeFunc
 from .report import AnalysisError
 
@@ -16,6 +16,8 @@ class Rig:
         self.it = it
         self.cls = cls
         self.screen = screen or termmodel.Screen(height, width)
+        self.after = []            # scripted input that arrives after the terminal's reply
+        self.over_reads = 0        # characters of `after` the window consumed
         self.ahead = []            # scripted input delivered before the terminal's reply
         self.read_errors = 0       # reads that fail with OSError before the next character is delivered
         self.on_read = None        # hook called at every read (used to inject a nested call)
@@ -36,11 +38,14 @@ class Rig:
                 self.on_read(self)
             if self.read_errors > 0:
                 self.read_errors -= 1
-                raise FoldedRaise("OSError", "scripted read failure")
+                raise FoldedRaise(ExcName("OSError", errno=5, args=(5, "Input/output error"), strerror="Input/output error"), "scripted read failure")
             if self.ahead:
                 return self.ahead.pop(0)
             if scr.replies:
                 return scr.replies.pop(0)
+            if self.after:
+                self.over_reads += 1
+                return self.after.pop(0)
             raise AnalysisError("the window reads from the terminal although no reply is pending (it would block)")
 
         self.out_stream = Record(write=NativeFunc(write, "out_stream.write"), flush=NativeFunc(lambda a, k: None, "flush"),
@@ -79,10 +84,15 @@ class Rig:
             return self.term
 
         stdout, stdin = Record(name="<stdout>"), Record(name="<stdin>")
-        fake_sys = Record(__stdout__=stdout, __stdin__=stdin, stdout=stdout, stdin=stdin, maxsize=2 ** 63 - 1)
+        # the process-wide encodings are not the stream's: modelled as a third encoding so that a dependence on them shows
+        other = NativeFunc(lambda a, k: "cp437", "process encoding")
+        fake_sys = Record(__stdout__=stdout, __stdin__=stdin, stdout=stdout, stdin=stdin, maxsize=2 ** 63 - 1,
+                          getdefaultencoding=other, getfilesystemencoding=other)
         it.folder.overrides.setdefault("window", {}).update({
             "blessed": Record(Terminal=NativeFunc(terminal, "blessed.Terminal")),
             "sys": fake_sys,
+            "locale": Record(getpreferredencoding=other, getlocale=NativeFunc(lambda a, k: ("en_US", "cp437")),
+                             getencoding=other),
             "Cbreak": NativeFunc(lambda a, k: NativeCM(None, None, "Cbreak")),
         })
         kw = dict(init_kwargs or {})
@@ -101,7 +111,20 @@ class Rig:
 
     def call(self, method, *args, **kw):
         self.sync_size()
+        forks = getattr(self.it, "forks", 0)
+        log = self.it.__dict__.setdefault("effect_log", [])
+        mark = len(log)
         r = self.it.callm(self.win, method, *args, **kw)
+        skipped = [t for k, t in log[mark:] if not t.startswith(("logger.", "logging."))]
+        del log[mark:]
+        if skipped:
+            # a statement whose effect the evaluator could not follow: what reached the terminal model is incomplete
+            raise AnalysisError("%s.%s: statement outside the evaluated subset while interpreting against the terminal model: `%s`"
+                                % (self.cls, method, skipped[0]))
+        if getattr(self.it, "forks", 0) != forks:
+            # a test on a value the evaluator does not know was explored both ways while the terminal stubs kept one state
+            raise AnalysisError("%s.%s: a condition on an unknown value was met while interpreting against the terminal model (%s)"
+                                % (self.cls, method, r[1] if r[0] == "opaque" else "result discarded"))
         if r[0] == "opaque":
             raise AnalysisError("%s.%s outside the evaluated subset: %s" % (self.cls, method, r[1]))
         return r
